@@ -1,6 +1,7 @@
 import Model.Ops
 import Spec.Ops
 import Proofs.Lemmas.Ops
+import Proofs.Lemmas.OpsCompare
 /-! C03: no-crash, spaceship coherence and exactness of `Model.Ops` against `Spec.Ops`. -/
 namespace Proofs.Ops
 open Model.Ops
@@ -50,8 +51,10 @@ theorem shift_ne_crash (f : BitVec 64 → Nat → BitVec 64) (a b : Val F) : shi
     · simp
     · split <;> simp
 
-theorem rel_ne_crash (R : RelOps F) (a b : Val F) : rel P R a b ≠ .crash := by
-  cases a <;> simp [rel] <;> (try split) <;> (try split) <;> simp
+theorem viaCompare_ne_crash {T : TruthTable} (hT : wf T = true) (test : Ord4 → Bool) (a b : Val F) :
+    viaCompare P T test a b ≠ .crash := by
+  obtain ⟨o, ho⟩ := looseCompare_some P hT a b
+  simp [viaCompare, ho]
 
 theorem eval_ne_crash {T : TruthTable} (hT : wf T = true) (op : BinOp) (same : Bool) (a b : Val F) :
     eval P T op same a b ≠ .crash := by
@@ -75,18 +78,19 @@ theorem eval_ne_crash {T : TruthTable} (hT : wf T = true) (op : BinOp) (same : B
   · unfold eqv
     split
     · simp
-    · cases a <;> simp [hb] <;> (try split) <;> (try split) <;> simp
+    · exact viaCompare_ne_crash P hT _ a b
   · unfold nev
     split
     · simp
-    · cases a <;> simp [hb] <;> (try split) <;> (try split) <;> simp
+    · exact viaCompare_ne_crash P hT _ a b
   · simp [seq]
   · simp [sne]
-  · exact rel_ne_crash P _ a b
-  · exact rel_ne_crash P _ a b
-  · exact rel_ne_crash P _ a b
-  · exact rel_ne_crash P _ a b
-  · unfold cmp; split <;> simp
+  · exact viaCompare_ne_crash P hT _ a b
+  · exact viaCompare_ne_crash P hT _ a b
+  · exact viaCompare_ne_crash P hT _ a b
+  · exact viaCompare_ne_crash P hT _ a b
+  · obtain ⟨o, ho⟩ := looseCompare_some P hT a b
+    simp [cmp, ho]
   · unfold land; rw [hlL, hlR]; cases Spec.Ops.truthy P a <;> simp
   · unfold lor; rw [hoL, hoR]; cases Spec.Ops.truthy P a <;> simp
   · simp [dot]
